@@ -189,4 +189,98 @@ theorem isAlign_replaceChar (name : String) (site : Int) (c : Byte) (b : Bag) (r
     (hr : replaceChar name site c b = some r) : r.1.isAlign = b.isAlign := by
   rcases replaceChar_cases hr with e | ⟨i, e⟩ <;> rw [e]
 
+/-! ### `RemoveGapSites` (through the C12 model) -/
+
+theorem filter_not_length {α : Type} (g : α → Bool) (l : List α) :
+    (l.filter fun i => !g i).length + (l.filter g).length = l.length := by
+  induction l with
+  | nil => rfl
+  | cons a t ih =>
+    cases hg : g a <;> simp [List.filter_cons, hg] <;> omega
+
+theorem removeSites_names (rows : CRows) (L : Nat) (q : List Bool) (ends : Bool) :
+    (removeSites rows L q ends).rows.map Prod.fst = rows.map Prod.fst := by
+  unfold removeSites
+  simp [List.map_map, Function.comp_def]
+
+theorem removeCharacterSites_names (test : Nat → Nat → Bool) (rows : CRows) (L : Int) (alphabet : Nat)
+    (cs : List Byte) (ends ic ig iN rev : Bool) :
+    (removeCharacterSites test rows L alphabet cs ends ic ig iN rev).rows.map Prod.fst = rows.map Prod.fst := by
+  unfold removeCharacterSites
+  split
+  · rfl
+  · exact removeSites_names _ _ _ _
+
+/-- after the removal pass every row has the reported number of columns -/
+theorem removeSites_lens (rows : CRows) (hne : rows ≠ []) (L : Nat) (q : List Bool) (ends : Bool) :
+    ∀ p ∈ (removeSites rows L q ends).rows, (p.2.length : Int) = (removeSites rows L q ends).length := by
+  have he : rows.isEmpty = false := by cases rows <;> simp_all
+  unfold removeSites
+  simp only [he, Bool.false_eq_true, if_false]
+  intro p hp
+  obtain ⟨x, _, rfl⟩ := List.mem_map.mp hp
+  simp only [List.length_map]
+  have := filter_not_length (fun i => q.getD i false && (!ends || decide (i ≥ (trackLoop L q 0 0 L).2) || decide (i + 1 ≤ (trackLoop L q 0 0 L).1))) (List.range L)
+  simp only [List.length_range] at this
+  omega
+
+theorem removeGapSites_fields {test : Nat → Nat → Bool} {ends : Bool} {b : Bag} {r : Bag × CleanResult}
+    (h : removeGapSites test ends b = some r) :
+    keys r.1.rows = keys b.rows ∧ r.1.index = b.index ∧ r.1.next = b.next ∧ r.1.isAlign = b.isAlign ∧
+    r.1.alphabet = b.alphabet ∧ r.1.policy = b.policy := by
+  unfold removeGapSites at h
+  split at h
+  · simp at h
+  · simp only [Option.some.injEq] at h; subst h
+    refine ⟨keys_withSeqs _ _ (length_of_names ?_), rfl, rfl, rfl, rfl, rfl⟩
+    rw [removeCharacterSites_names, pairs_names]
+
+theorem inv_removeGapSites (test : Nat → Nat → Bool) (ends : Bool) (b : Bag) (h : Inv b) (r : Bag × CleanResult)
+    (hr : removeGapSites test ends b = some r) : Inv r.1 := by
+  obtain ⟨k, i, n, _⟩ := removeGapSites_fields hr
+  exact h.transfer (by rw [k]) i (by omega)
+
+theorem rect_removeGapSites (test : Nat → Nat → Bool) (ends : Bool) {b : Bag} (h : Rect b) (r : Bag × CleanResult)
+    (hr : removeGapSites test ends b = some r) : Rect r.1 := by
+  unfold removeGapSites at hr
+  split at hr
+  · simp at hr
+  · simp only [Option.some.injEq] at hr; subst hr
+    have hnames := removeCharacterSites_names test (pairs b) b.length b.alphabet [GAP] ends false false false false
+    have hl := length_of_names (hnames.trans (pairs_names b))
+    constructor
+    · intro ha x hx
+      simp only [] at ha hx ⊢
+      -- the row's sequence is one of the sequences of the C12 result
+      have hseq : x.seq ∈ (removeCharacterSites test (pairs b) b.length b.alphabet [GAP] ends false false false false).rows.map Prod.snd := by
+        rw [← seqs_withSeqs _ _ hl]; exact List.mem_map_of_mem (f := (·.seq)) hx
+      obtain ⟨p, hp, e⟩ := List.mem_map.mp hseq
+      rw [← e]
+      have hne : b.rows ≠ [] := by
+        intro e0
+        have : (withSeqs b.rows (removeCharacterSites test (pairs b) b.length b.alphabet [GAP] ends false false false false).rows).length = 0 := by
+          rw [withSeqs_length _ _ hl, e0]; rfl
+        rw [List.length_eq_zero_iff] at this
+        rw [this] at hx; simp at hx
+      have hpne : pairs b ≠ [] := by simpa [pairs] using hne
+      have hlen : 0 ≤ b.length := by
+        cases hrows : b.rows with
+        | nil => exact absurd hrows hne
+        | cons y t =>
+          have := h.rows_len ha y (by simp [hrows])
+          omega
+      unfold removeCharacterSites at hp ⊢
+      rw [if_neg (by omega)] at hp ⊢
+      exact removeSites_lens _ hpne _ _ _ p hp
+    · intro ha he
+      simp only [] at ha he ⊢
+      have hb : b.rows = [] := by
+        have := withSeqs_length b.rows _ hl
+        rw [he] at this
+        exact List.eq_nil_of_length_eq_zero this.symm
+      have := h.empty_len ha hb
+      unfold removeCharacterSites
+      rw [if_pos (by omega)]
+      exact this
+
 end Gv.Proofs.BagAbs
